@@ -76,6 +76,10 @@ type TCP struct {
 	Running          int  // handlers currently running
 	ServeReturned    bool
 	RunningAtReturn  int  // handlers still running when StreamServe returned
+	// Accepted / Finished: connections StreamServe has accepted / whose handler has returned;
+	// UnfinishedAtReturn: their difference at the moment StreamServe returned (handlers that were
+	// still running, or had not even started)
+	Accepted, Finished, UnfinishedAtReturn int
 	// FailHandler: the handling of a connection from this remote address fails (panics) before the
 	// stream handler runs: the recovery path of StreamServe
 	FailHandler func(remote string) bool
@@ -104,7 +108,14 @@ func (w *TCP) Start() {
 	}
 	w.Ln = ln
 	w.serve = vrt.Spawn("serve", func() {
-		service.StreamServe(service.WrapStreamAcceptFunc(ln.AcceptTCP), func(ctx context.Context, conn transport.StreamConn) {
+		accept := service.WrapStreamAcceptFunc(ln.AcceptTCP)
+		service.StreamServe(func() (transport.StreamConn, error) {
+			c, err := accept()
+			if err == nil {
+				w.Accepted++
+			}
+			return c, err
+		}, func(ctx context.Context, conn transport.StreamConn) {
 			rec := &ConnRec{Remote: conn.RemoteAddr().String()}
 			if tc, ok := conn.(*vnet.TCPConn); ok {
 				rec.Srv = tc
@@ -113,6 +124,7 @@ func (w *TCP) Start() {
 			w.Running++
 			defer func() {
 				w.Running--
+				w.Finished++
 				rec.HandleReturnedAt = vrt.NowQuiet().Sub(vrt.Epoch)
 			}()
 			if w.FailHandler != nil && w.FailHandler(rec.Remote) {
@@ -126,6 +138,7 @@ func (w *TCP) Start() {
 		})
 		w.ServeReturned = true
 		w.RunningAtReturn = w.Running
+		w.UnfinishedAtReturn = w.Accepted - w.Finished
 	})
 }
 
@@ -144,7 +157,13 @@ func (w *TCP) StartShared() {
 	}
 	w.shared = sl
 	w.serve = vrt.Spawn("serve", func() {
-		service.StreamServe(sl.AcceptStream, func(ctx context.Context, conn transport.StreamConn) {
+		service.StreamServe(func() (transport.StreamConn, error) {
+			c, err := sl.AcceptStream()
+			if err == nil {
+				w.Accepted++
+			}
+			return c, err
+		}, func(ctx context.Context, conn transport.StreamConn) {
 			rec := &ConnRec{Remote: conn.RemoteAddr().String()}
 			if tc, ok := conn.(*vnet.TCPConn); ok {
 				rec.Srv = tc
@@ -153,6 +172,7 @@ func (w *TCP) StartShared() {
 			w.Running++
 			defer func() {
 				w.Running--
+				w.Finished++
 				rec.HandleReturnedAt = vrt.NowQuiet().Sub(vrt.Epoch)
 			}()
 			if w.FailHandler != nil && w.FailHandler(rec.Remote) {
@@ -166,6 +186,7 @@ func (w *TCP) StartShared() {
 		})
 		w.ServeReturned = true
 		w.RunningAtReturn = w.Running
+		w.UnfinishedAtReturn = w.Accepted - w.Finished
 	})
 }
 
